@@ -8,7 +8,7 @@ ID = 'C11'
 LEVEL = 'exploration'
 RULE = ('Engine A: ALL eligibility matrices over 7 row types for G <= 3 | 4 geos (7^G, every arrangement, no symmetry '
         'argument) and for G = 5 | 5,6 one arrangement per class-count vector, x size-range / geo-ratio settings '
-        '(12 | 60; for G=4 quick 2, G=5 2 | 12; boundary ratios 1/2, 2/3, 2, 3 included), x n_geos_max in {-, 3}. Three-way oracle: fast count == '
+        '(12 | 60; for G=4 quick 2, G=5 2 | 12; boundary ratios 1/2, 2/3, 2, 3 included; plus the complete 6 x 6 x 4 grid treatment range x control range x ratio tolerance on one arrangement per class-count vector of 4 geos (quick: vectors over the row types ctx, c_fixed, ct, tx)), x n_geos_max in {-, 3}. Three-way oracle: fast count == '
         'number of (T,C) pairs listed by the real generators over treatment_group_size_range() (no duplicates) == '
         'length of the reference enumeration (itertools.product over per-geo options, exact rational size/ratio '
         'filters). Non-trivial = count > 0 and a non-free row or a size/ratio setting present; distinct = distinct case.')
@@ -23,8 +23,8 @@ SETTINGS_Q = [{}, {'treatment_geos_range': [2, 3]}, {'control_geos_range': [2, 2
               {'treatment_geos_range': [2, 2], 'geo_ratio_tolerance': 0.5}, {'control_geos_range': [3, 5]}]
 
 
-def settings(tier):
-    if tier != 'thorough':
+def settings(tier, grid=False):
+    if tier != 'thorough' and not grid:
         return SETTINGS_Q
     out = list(SETTINGS_Q)
     ranges = [None, [1, 1], [1, 2], [2, 2], [2, 4], [3, 3]]
@@ -41,7 +41,7 @@ def settings(tier):
                     kw['geo_ratio_tolerance'] = gt
                 if kw not in out:
                     out.append(kw)
-    return out[:60]
+    return out if grid else out[:60]
 
 
 def cases(tier, seed):
@@ -59,6 +59,17 @@ def cases(tier, seed):
         for mat in itertools.product(rows7, repeat=4):
             for kw in (SETTINGS_Q[0], SETTINGS_Q[6]):
                 out.append({'panel': p, 'rows': list(mat), 'nomatrix': False, 'extra': None, 'kw': kw})
+    # the whole size-range x size-range x ratio-tolerance grid (6 x 6 x 4 settings) on one arrangement per class-count
+    # vector of 4 geos (counting is symmetric in the arrangement; all arrangements are covered above for fewer settings)
+    import json
+    p = {'name': 'A', 'G': 4, 'T': 10}
+    have = {json.dumps(c, sort_keys=True) for c in out if c['panel']['G'] == 4}
+    grid_rows = rows7 if thorough else [[1, 1, 1], [1, 0, 0], [1, 1, 0], [0, 1, 1]]    # quick: ctx, c_fixed, ct, tx
+    for mat in itertools.combinations_with_replacement(grid_rows, 4):
+        for kw in settings(tier, grid=True):
+            c = {'panel': p, 'rows': list(mat), 'nomatrix': False, 'extra': None, 'kw': kw}
+            if json.dumps(c, sort_keys=True) not in have:
+                out.append(c)
     for G in ((5, 6) if thorough else (5,)):
         p = {'name': 'A', 'G': G, 'T': 10}
         for mat in itertools.combinations_with_replacement(rows7, G):
